@@ -33,6 +33,202 @@ def run(ctx, db, tier):
         witness.negative(ctx, 'C06.types-neg', 'C06_neg.cpp', 'copy construction / copy assignment of a suspend point must not compile (duplication needs a copy)')
 
 
+def consistent(tr):
+    """is the trace free of self-contradiction?  A condition that is one evaluation of one event (a bool local defined once: const bool any =
+    !empty(); if (any && a) {...} else if (any) {...}) cannot come out differently at two branches unless the event ran again in between (a loop
+    iteration, a second expansion of the helper); a plain local / parameter that is tested twice without having been written keeps its value.
+    The path enumerator walks every combination of edges: combinations that contradict themselves are not paths of the program"""
+    known = {}
+    for it in tr:
+        if it.k in ('enter', 'leave'):
+            continue
+        if it.k == 'branch':
+            if it.get('cond_ev') is not None:
+                k = (it.get('fn'), it.get('depth', 0), it['cond_ev'], it.get('rcond_ev'), it.get('path'))
+                v = bool(it.val)
+            elif re.fullmatch(r'(local|param):\w+(#\d+)?', it.get('path') or ''):
+                k = (it.get('fn'), it.get('depth', 0), None, None, it['path'])
+                v = bool(it.val)
+            else:
+                continue
+            if k in known and known[k] != v:
+                return False
+            known[k] = v
+            continue
+        if it.get('id') is not None:
+            for k in [k for k in known if k[2] == it['id'] and k[0] == it.get('fn') and k[1] == it.get('depth', 0)]:
+                del known[k]          # the event ran again: a new value
+        if it.k in ('write', 'decl') or (it.k == 'call' and it.get('args')):
+            ps = [it.get('path'), it.get('var')] + [a.get('path') for a in (it.get('args') or []) if '&' in (a.get('type') or '&')]
+            for k in [k for k in known if k[2] is None and any(p and (p == k[4] or p == '&(%s)' % k[4]) for p in ps)]:
+                del known[k]
+    return True
+
+
+_OPRE = re.compile(r' (\|\||&&|==|!=|<=|>=|<<|>>|[|^&<>+\-*/%?:]) ')
+
+
+def _top_ops(body):
+    """top-level binary operators of 'A op B op C': [(start, op, end)]"""
+    d = 0; found = []; i = 0
+    while i < len(body):
+        ch = body[i]
+        if ch in '([':
+            d += 1
+        elif ch in ')]':
+            d -= 1
+        elif ch == ' ' and d == 0:
+            m = _OPRE.match(body, i)
+            if m:
+                found.append((i, m.group(1), m.end()))
+                i = m.end() - 1
+        i += 1
+    return found
+
+
+def int_eval(expr, atom):
+    """integer value of an access-path expression (fully parenthesised C arithmetic / comparison / logic over literals and atoms);
+    atom(a) gives the value of an atom or None; None when any part is not interpretable"""
+    e = (expr or '').strip()
+    if not e:
+        return None
+    if re.fullmatch(r'\d+', e):
+        return int(e)
+    if e in ('true', 'false', 'nullptr'):
+        return 1 if e == 'true' else 0
+    v = atom(e)
+    if v is not None:
+        return v
+    if e.startswith('!'):
+        v = int_eval(e[1:], atom)
+        return None if v is None else int(not v)
+    m = re.fullmatch(r'(?:ctor|move|forward|static_cast<[^()]*>|cast)\((.*)\)', e)
+    if m and m.group(1).count('(') == m.group(1).count(')'):
+        return int_eval(m.group(1), atom)
+    if e.startswith('(') and e.endswith(')'):
+        d = 0
+        for i, ch in enumerate(e):
+            d += ch == '('; d -= ch == ')'
+            if d == 0 and i < len(e) - 1:
+                return None          # '(a)(b)': not one group
+        body = e[1:-1]
+        ops = _top_ops(body)
+        if not ops:
+            return int_eval(body, atom)
+        if any(o[1] in '?:' for o in ops):
+            sp = split_select(e)
+            if not sp:
+                return None
+            c = int_eval(sp[0], atom)
+            return None if c is None else int_eval(sp[1] if c else sp[2], atom)
+        kinds = {o[1] for o in ops}
+        if len(kinds) > 1 and not kinds <= {'+', '-'}:
+            return None
+        s, op, en = ops[-1]
+        a = int_eval(body[:s], atom)
+        if a is None:
+            return None
+        if op == '&&' and not a:
+            return 0
+        if op == '||' and a:
+            return 1
+        b = int_eval(body[en:], atom)
+        if b is None:
+            return None
+        try:
+            return {'||': lambda: int(bool(a or b)), '&&': lambda: int(bool(a and b)), '|': lambda: a | b, '^': lambda: a ^ b, '&': lambda: a & b,
+                    '==': lambda: int(a == b), '!=': lambda: int(a != b), '<=': lambda: int(a <= b), '>=': lambda: int(a >= b), '<': lambda: int(a < b),
+                    '>': lambda: int(a > b), '<<': lambda: a << b, '>>': lambda: a >> b, '+': lambda: a + b, '-': lambda: a - b, '*': lambda: a * b,
+                    '/': lambda: a // b, '%': lambda: a % b}[op]()
+        except (ZeroDivisionError, ValueError, KeyError):
+            return None
+    return None
+
+
+def _mentions(expr, names):
+    return any(re.search(re.escape(n) + r'(?![\w#])', expr or '') for n in names)
+
+
+def word_step(tr, word, N=12):
+    """one live trace read as a transformer of the unsigned count word at `word` (count << 1 | heap bit): {start value: end value} for
+    every start value in 0..N-1 under which all the tests of the word on this trace - written on the word itself, on a local computed from
+    it, or inside an expanded accessor (empty(), size(), a predicate) - come out the way the trace took them.  Locals are evaluated where
+    they are declared / assigned, so a value taken before a store to the word stays the old one.  None when a test of the word or a store
+    to it is not interpretable (the caller then cannot decide by evaluation)"""
+    out = {}
+    for v0 in range(N):
+        st = {word: v0}; dep = {word}; ok = True
+        for i, it in enumerate(tr):
+            def atom(a, i=i):
+                if a in st:
+                    return st[a]
+                if re.fullmatch(r'call\([^()]*\)', a):
+                    r = inline_returns(tr, i, a)
+                    if r != a:
+                        return int_eval(r, atom)
+                return None
+            if it.k == 'decl' and it.get('var'):
+                ini = it.get('init')
+                v = None
+                if ini is not None:
+                    src = inline_returns(tr, i, ini)
+                    v = int_eval(src, lambda a: None if a == it['var'] else atom(a))
+                    if v is None and isinstance(it.get('const'), int) and not isinstance(it.get('const'), bool):
+                        v = it['const']
+                    if _mentions(src, dep):
+                        dep.add(it['var'])
+                st[it['var']] = v
+            elif it.k == 'call' and norm(it.get('callee') or '') == 'std::exchange' and it.get('args') and it['args'][0].get('path') in st:
+                p = it['args'][0]['path']
+                a1 = it['args'][1] if len(it['args']) > 1 else {}
+                nv = a1.get('const') if isinstance(a1.get('const'), int) else int_eval(a1.get('path'), atom)
+                st['call(std::exchange)'] = st[p]
+                if p == word:
+                    if nv is None:
+                        return None
+                    nv &= 0xFFFFFFFF
+                st[p] = nv
+            elif it.k == 'write' and (it.get('path') == word or it.get('path') in st):
+                p = it['path']; cur = st.get(p)
+                op = '=' if it.get('init') else (it.get('op') or '=')
+                rv = it['const'] if isinstance(it.get('const'), int) and not isinstance(it.get('const'), bool) else int_eval(it.get('rhs'), atom)
+                if op == '=':
+                    nv = rv
+                elif op in ('++', '--'):
+                    nv = None if cur is None else cur + (1 if op == '++' else -1)
+                elif cur is None or rv is None:
+                    nv = None
+                else:
+                    nv = int_eval('(%d %s %d)' % (cur, op[:-1], rv), lambda a: None) if op.endswith('=') and cur >= 0 and rv >= 0 else None
+                if p == word:
+                    if nv is None:
+                        return None
+                    nv &= 0xFFFFFFFF
+                elif _mentions(it.get('rhs') or '', dep):
+                    dep.add(p)
+                st[p] = nv
+            elif it.k == 'branch':
+                cands = [(it.get('path'), it.val)] + [(k_, v_) for k_, v_ in (it.get('forms') or {}).items()]
+                about = False; decided = None
+                for p_, val_ in cands:
+                    if not p_:
+                        continue
+                    p2 = p_
+                    about = about or _mentions(p2, dep) or _mentions(inline_returns(tr, i, p2), dep)
+                    v = int_eval(p2, atom)
+                    if v is not None:
+                        decided = (bool(v) == bool(val_)); break
+                if decided is None:
+                    if about:
+                        return None
+                    continue
+                if not decided:
+                    ok = False; break
+        if ok:
+            out[v0] = st[word]
+    return out
+
+
 def objof(p):
     """object that owns a storage access path: this->._ext._handles -> this ; param:other._count_flag -> param:other"""
     m = re.match(r'^(this|param:\w+|local:\w+)(?:->|\.)', p or '')
@@ -127,19 +323,24 @@ def typestate(ctx, db, rid='C06.storage-typestate'):
         for tr in trs:
             if bad:
                 break
-            heap = {}; deleted = {}; installed = {}; transferred = {}; boolvars = {}; eq = {}; pending_xchg = None
+            if not consistent(tr):
+                continue          # a combination of edges that contradicts itself (one flag local read as true and as false) is no path
+            heap = {}; deleted = {}; installed = {}; transferred = {}; boolvars = {}; eq = {}; pending_xchg = None; words = {}
             if is_ctor:
                 deleted['this'] = True          # a fresh object has no old array
             for i, it in enumerate(tr):
                 if it.k == 'abort':
                     break
                 if it.k == 'decl' and it.get('init'):
-                    hp = heap_pred(it['init'], boolvars)
+                    if re.fullmatch(r'(?:this|param:\w+|local:\w+)(?:->|\.)_count_flag', it['init']) and it.get('var'):
+                        words[it['var']] = it['init']          # a local that holds the whole count word (const unsigned state = other._count_flag;)
+                        continue
+                    hp = heap_pred(_word_subst(it['init'], words), boolvars)
                     if hp:
                         boolvars[it['var']] = hp
                     continue
                 if it.k == 'branch':
-                    hp = heap_pred(it.path or '', boolvars)
+                    hp = heap_pred(_word_subst(it.path or '', words), boolvars)
                     if hp:
                         npred += 1
                         obj, pol = hp
@@ -204,6 +405,8 @@ def typestate(ctx, db, rid='C06.storage-typestate'):
                             bad = ('write into heap storage %s while the storage mode is not known to be heap' % p, tr, i); break
                     continue
                 if p.endswith('_count_flag') and it.k == 'write':
+                    for k_ in [k_ for k_, v_ in words.items() if v_ == p]:
+                        del words[k_]          # the copy is the old word from here on
                     eff = parity_effect(it)
                     old = heap.get(obj)
                     if eff[0] == 'unknown' and (it.get('rhs') or '') == 'call(std::exchange)' and pending_xchg is not None:
@@ -239,6 +442,13 @@ def typestate(ctx, db, rid='C06.storage-typestate'):
         raise Broken('the heap-in-use predicate (_count_flag & 1) was recognised at %d branch(es) only: the encoding changed' % npred)
 
 
+def _word_subst(path, words):
+    """a test written on a local copy of the count word is a test of the word (as long as the word has not been stored to since)"""
+    if not words or not path:
+        return path
+    return re.sub(r'local:\w+(#\d+)?', lambda m: words.get(m.group(0), m.group(0)), path)
+
+
 def _ctor_sets_inline(f):
     """suspend_point(coroutine_handle) : _count_flag(2) {_local._handles[0] = ...} : constant even initialiser = inline mode"""
     for e in f.events():
@@ -260,14 +470,18 @@ def source_reset(ctx, db, rid='C06.source-reset'):
             targets.append(f)
     if len(targets) < 2:
         raise Broken('move constructor / merge operator of suspend_point<void> not instantiated')
-    T = Tracer(db, depth=0, maxvisit=2)
+    # helpers of the class are expanded (the body may live in take_storage(other) / other.move_handles_to(*this)); add() is the sink the
+    # elements are handed to and stays a call
+    T = Tracer(db, depth=4, maxvisit=2, inline_filter=lambda caller, ev, callee: is_helper(db, caller, callee) and not callee.get('lambda') and callee['nname'] != 'cocls::suspend_point::add')
     seen = set()
     for f in targets:
         if f['key'] in seen:
             continue
         seen.add(f['key'])
         src = 'param:' + next(p['name'] for p in f['params'] if 'suspend_point' in p['type'])
-        trs = [t for t in T.traces(f) if live(t)]
+        trs = [t for t in T.traces(f) if live(t) and consistent(t)]
+        if T.truncated:
+            raise Broken('path bound exceeded in ' + f['nname'])
         ctx.paths(rid, len(trs))
         bad = None
         for tr in trs:
@@ -326,7 +540,7 @@ def consumers_clear(ctx, db, rid='C06.consumers-clear'):
                    'the handles; the destructor runs suspend_now on the non-empty edge; pop decrements the count by exactly one handle on the non-empty edge and writes nothing on '
                    'the empty edge', floor=4)
     for f, trs in traces_of(db, 'cocls::suspend_point::suspend_now', depth=0, per_instance=False):
-        trs = [t for t in trs if live(t)]
+        trs = [t for t in trs if live(t) and consistent(t)]
         ctx.paths(rid, len(trs))
         bad = None
         for tr in trs:
@@ -337,7 +551,7 @@ def consumers_clear(ctx, db, rid='C06.consumers-clear'):
                 bad = bad or ('the storage is cleared before its handles were run/queued', tr)
         ctx.ob(rid, f, f['key'], bad is None, 'suspend_now: clear exactly once, last' + ('' if not bad else ' -- ' + bad[0]), desc=bad[0] if bad else None)
     for f, trs in traces_of(db, 'cocls::suspend_point::await_suspend', depth=1, inline=inline_only('cocls::coro_queue::is_active'), per_instance=False):
-        trs = [t for t in trs if live(t)]
+        trs = [t for t in trs if live(t) and consistent(t)]
         ctx.paths(rid, len(trs))
         bad = None; na = 0
         for tr in trs:
@@ -363,6 +577,11 @@ def consumers_clear(ctx, db, rid='C06.consumers-clear'):
     # normal-mode edge of await_suspend: the closure run under the temporary queue must consume the handles (delegate to the nested
     # await_suspend / suspend_now, or clear after running them): handles that are run but stay in the list are run again by the destructor
     lams = lambdas_of(db, 'cocls::suspend_point::await_suspend')
+    if not lams:
+        # the normal-mode arm may have been moved into a helper of the class (await_suspend_no_queue(h)): its closures are the ones meant
+        hk = {g['key'] for f in db.fns('cocls::suspend_point::await_suspend')[:1] for g in helper_bodies(db, f)}
+        lams = [lf for k in db.keys() for lf in db.instances(k) if lf.get('lambda') and lf.get('parent_key') in hk and
+                any(e.k == 'lambda' and e.get('fn_key') == k and 'install_queue_and_call' in (e.get('use') or '') for e in (db.get(lf['parent_key']) or {'blocks': []}).events())]
     EMPTY = ('cocls::suspend_point::await_suspend', 'cocls::suspend_point::suspend_now', 'cocls::suspend_point::clear', 'cocls::suspend_point::clear_internal', 'cocls::suspend_point::flush')
     seenl = set()
     for lf in lams:
@@ -404,11 +623,26 @@ def consumers_clear(ctx, db, rid='C06.consumers-clear'):
         ctx.paths(rid, len(trs))
         bad = None; ne = 0
         for tr in trs:
-            nonempty = None
-            for it in tr:
-                if it.k == 'branch' and nonempty is None and not heap_pred(it.path or '', {}):
-                    nl = nullness(it); nonempty = nl[1] if nl else None
             ws = [it for it in tr if it.k == 'write' and (it.get('path') or '').endswith('_count_flag')]
+            # the path as a transformer of the count word, over small start values: whatever the test of "non-empty" is spelled like (a local
+            # holding the count, _count_flag >= 2, !empty(), an early return), a word that counts >= 1 handle must lose exactly one handle and
+            # keep its storage bit, a word that counts none (0, or 1 = emptied heap storage) must stay as it is
+            step = word_step(tr, 'this->_count_flag')
+            if step is not None:
+                for v0, v1 in sorted(step.items()):
+                    if v0 >> 1:
+                        ne += 1
+                        if v1 != v0 - 2:
+                            bad = bad or ('pop on a non-empty suspend point does not decrement the count by exactly one handle (found %s)' % [(w.get('op'), w.get('const'), w.get('rhs')) for w in ws], tr)
+                    elif v1 != v0:
+                        bad = bad or ('pop on an empty suspend point changes the count', tr)
+                continue
+            nonempty = None; known = False
+            for it in tr:
+                if it.k == 'branch' and not known and not heap_pred(it.path or '', {}):
+                    nl = nullness(it); nonempty = nl[1] if nl else None; known = True
+                    if nl is None:
+                        raise Broken('pop: the test of the count (%s) is not understood' % it.path)
             if nonempty:
                 ne += 1
                 if len(ws) != 1 or delta_of_write(ws[0]) != -2:
@@ -424,7 +658,7 @@ def growth(ctx, db, rid='C06.growth'):
     rid = ctx.rule(rid, 'LINEAR+GUARDED', 'suspend_point::add: every allocation is control-dependent on the count having reached the current capacity (inline_count or '
                    '_ext._capacity); the capacity stored afterwards is the expression that sized the allocation; the new array is installed on the same path', floor=1)
     for f, trs in traces_of(db, 'cocls::suspend_point::add', depth=0, per_instance=False):
-        trs = [t for t in trs if live(t)]
+        trs = [t for t in trs if live(t) and consistent(t)]
         ctx.paths(rid, len(trs))
         bad = None; nnew = 0
         for tr in trs:
@@ -619,11 +853,21 @@ def listed_queued_once(ctx, db, rid_='C06.listed-handles-queued-once'):
                     me = [x for x in sides if hname in x or re.search(r'coroutine_handle(<[^>]*>)?::address', x)]
                     if len(me) == 1:
                         cm.append((i, it, sides[1 - sides.index(me[0])]))
-            if len(cm) != 1:
+            found_means_me = False
+            if not cm:
+                # the comparison may be inside a standard search over the listed handles (std::find(begin, end, me) != end): "found" is
+                # "some listed handle is the awaiting coroutine"; judged on the paths where the loop over the same range runs once
+                sr = _membership_search(tr, hname)
+                if sr is None:
+                    continue
+                ci, cit, elem = sr
+                found_means_me = True
+            elif len(cm) != 1:
                 continue        # no iteration, or more than one unrolled: judged on the single-iteration paths
-            ci, cit, elem = cm[0]
-            if not elem.startswith('local:'):
-                continue
+            else:
+                ci, cit, elem = cm[0]
+                if not elem.startswith('local:'):
+                    continue
             pushes = [(i, it) for i, it in enumerate(tr) if it.k == 'call' and not it.get('expanded') and norm(it.get('callee') or '').endswith('::push')]
             def mentions(it, name, d=0):
                 for a in it.get('args', []) or []:
@@ -638,7 +882,7 @@ def listed_queued_once(ctx, db, rid_='C06.listed-handles-queued-once'):
             ph = sum(1 for i, it in pushes if mentions(it, hname))
             cbr = next((b for b in tr[ci + 1:] if tests(b, cit)), None)
             for hyp in (False, True):       # is the element the awaiting coroutine?
-                cval = hyp if cit.get('op') == '==' else (not hyp)
+                cval = hyp if (cit.get('op') == '==') != found_means_me else (not hyp)        # (a search: "!= end" is "found")
                 if cbr is not None and bool(cbr.val) != cval:
                     continue
                 # evaluate bool locals written from the comparison along the path
@@ -647,6 +891,8 @@ def listed_queued_once(ctx, db, rid_='C06.listed-handles-queued-once'):
                 for i, it in enumerate(tr):
                     if it.k == 'decl' and (it.get('var') or '').startswith('local:') and it.get('const') in (0, 1) and (it.get('init') in ('false', 'true')):
                         env[it['var']] = bool(it['const'])
+                    elif it.k == 'decl' and i > ci and (it.get('var') or '').startswith('local:') and it.get('init_ev') is not None and it.get('init_ev') == cit.get('id') and it.get('fn') == cit.get('fn'):
+                        env[it['var']] = cval          # const bool included = <the comparison>;
                     elif it.k == 'decl' and i > ci and (it.get('var') or '').startswith('local:') and it.get('init') and elem in it['init'] and ('==' in it['init'] or '!=' in it['init']):
                         env[it['var']] = cval if '==' in it['init'] else (not cval)
                     elif it.k == 'write' and (it.get('path') or '') in env or (it.k == 'write' and (it.get('path') or '').startswith('local:') and i > ci and it.get('op') in ('=', '|=', '&=')):
@@ -687,6 +933,40 @@ def listed_queued_once(ctx, db, rid_='C06.listed-handles-queued-once'):
                trace=fmt_trace(bad[1]) if bad else None)
     if n == 0:
         raise Broken('await_suspend: the scan that compares the listed handles with the awaiting coroutine was not found')
+
+
+def _membership_search(tr, hname):
+    """std::find(first, last, <address of the awaiting coroutine>) compared with `last`, and one loop over the same range [first, last) that ran
+    exactly once on this trace: (index of the comparison, the comparison, the element the loop visits) or None"""
+    for i, it in enumerate(tr):
+        if it.k != 'cmp' or it.get('op') not in ('==', '!='):
+            continue
+        sides = [it.get('lhs') or '', it.get('rhs') or '']
+        fs = [x for x in sides if re.fullmatch(r'call\(std::(ranges::)?find\)', x)]
+        if len(fs) != 1:
+            continue
+        other = sides[1 - sides.index(fs[0])]
+        fc = next((x for x in reversed(tr[:i]) if x.k == 'call' and norm(x.get('callee') or '') in ('std::find', 'std::ranges::find') and x.get('depth', 0) == it.get('depth', 0)), None)
+        if fc is None or len(fc.get('args') or []) != 3:
+            continue
+        first, last, what = [(a.get('path') or '') for a in fc['args']]
+        if other != last or not (hname in what or hname in (fc['args'][2].get('opath') or '') or re.search(r'coroutine_handle(<[^>]*>)?::address', what)):
+            continue
+        # the loop over the same range: its condition compares an iterator that started at `first` with `last`
+        its = []
+        for j, b in enumerate(tr):
+            if j > i and b.k == 'branch' and b.term in ('ForStmt', 'WhileStmt', 'DoStmt') and last in (b.path or ''):
+                m = re.fullmatch(r'\((local:\w+(?:#\d+)?) (?:!=|<) %s\)' % re.escape(last), b.path or '') or re.fullmatch(r'\(%s (?:!=|>) (local:\w+(?:#\d+)?)\)' % re.escape(last), b.path or '')
+                if not m:
+                    return None
+                d = next((x for x in reversed(tr[:j]) if x.k == 'decl' and x.get('var') == m.group(1)), None)
+                if d is None or (d.get('init') or '') != first:
+                    return None
+                its.append((m.group(1), bool(b.val)))
+        if len({v for v, _ in its}) != 1 or sum(1 for _, t in its if t) != 1:
+            continue          # no loop over that range, or not exactly one iteration on this path
+        return i, it, '*(%s)' % its[0][0]
+    return None
 
 
 RQ = 'cocls::coro_queue::queue_impl::_queue'
